@@ -15,7 +15,7 @@
 //!
 
 use std::panic::Location;
-use std::sync::atomic::{AtomicUsize, Ordering};
+use std::sync::atomic::{AtomicPtr, AtomicUsize, Ordering};
 
 ///
 /// The kind of point being reported to the hook
@@ -46,7 +46,7 @@ pub const POINT_KINDS: usize = 15;
 /// Signature of a hook function
 pub type Hook = fn(PointKind, &'static Location<'static>);
 
-static HOOK: AtomicUsize            = AtomicUsize::new(0);
+static HOOK: AtomicPtr<()>          = AtomicPtr::new(std::ptr::null_mut());
 static POOL_THREADS: AtomicUsize    = AtomicUsize::new(0);
 static POOL_SPAWNS: AtomicUsize     = AtomicUsize::new(0);
 
@@ -54,7 +54,7 @@ static POOL_SPAWNS: AtomicUsize     = AtomicUsize::new(0);
 /// Installs (or with `None`, removes) the process-global hook function
 ///
 pub fn set_hook(hook: Option<Hook>) {
-    let value = match hook { Some(hook) => hook as usize, None => 0 };
+    let value = match hook { Some(hook) => hook as *mut (), None => std::ptr::null_mut() };
     HOOK.store(value, Ordering::SeqCst);
 }
 
@@ -64,9 +64,9 @@ pub fn set_hook(hook: Option<Hook>) {
 #[inline]
 pub fn point(kind: PointKind, location: &'static Location<'static>) {
     let hook = HOOK.load(Ordering::Relaxed);
-    if hook != 0 {
-        // Safe: the only values ever stored are 0 and valid `Hook` function pointers
-        let hook: Hook = unsafe { std::mem::transmute::<usize, Hook>(hook) };
+    if !hook.is_null() {
+        // Safe: the only values ever stored are null and valid `Hook` function pointers
+        let hook: Hook = unsafe { std::mem::transmute::<*mut (), Hook>(hook) };
         hook(kind, location);
     }
 }
